@@ -21,8 +21,8 @@ for p in props:
             "evidence_file": "evidence/%s.json" % pid,
             "replay_cmd_template": "python3 check.py %s --replay {path}" % pid,
             "engine": "gosym",
-            "level_claimed": {"category": "model_checking", "text": c.get("text", ""), "design_ref": c.get("design_ref", "DESIGN.md section 4, " + pid)},
-            "level_note": c.get("note", ""),
+            "level_claimed": {"category": "model_checking", "text": (c.get("text") or claims["_default_text"]) + (" Scope: " + c["scope"] + "." if c.get("scope") else ""), "design_ref": c.get("design_ref", "DESIGN.md section 4, " + pid)},
+            "level_note": c.get("note") or claims["_default_note"],
             "technique": c.get("technique", "bounded symbolic execution of the real Go code (go/ssa -> SMT bit-vectors), z3 decides every path obligation; counterexamples replayed natively"),
         })
     else:
